@@ -41,6 +41,10 @@ fn process_crtr_block<H: Host>(_: &mut Emulator<H>, block_data: &[u8]) {
 
 // Process ZXSTZ80REGS (Z80R) block
 fn process_z80r_block<H: Host>(emulator: &mut Emulator<H>, block_data: &[u8]) {
+    // Snapshot replaces whole CPU state: pending prefix of the previously
+    // running program must not leak into it (HALT and EI delay are set below)
+    emulator.cpu.reset_transient_state();
+
     // AF
     emulator
         .cpu
